@@ -4,7 +4,7 @@ open Lean Pog Pog.Drv
 namespace Pog.Drv
 
 def surfaceFns : List String := ["protoStub","toMock","toMockOp","toMockLines","sigOf","natureOf","wellFormed","bodyOf","mockErrClass",
-  "groupEndpoints","groupEndpointsFused","groupMocks","tagScore","tagMapEmitter","tagMapVisitor","clientProps",
+  "groupEndpoints","groupEndpointsFused","groupMocks","groupMocksRaw","tagScore","tagMapEmitter","tagMapVisitor","clientProps",
   "mockClientProps","pyMaxTag","strLt","surfaceHasSub"]
 
 private def jparam (p : SigParam) : Json :=
@@ -45,6 +45,7 @@ def surfaceRun (f : String) (a : Array Json) (u : UInfo) : Except String Json :=
   | "groupEndpoints" => pure (jopt (jlist jgroup) (groupEndpointsRaw u (← getList getOp (← argN a 0))))
   | "groupEndpointsFused" => pure (jlist jgroup (groupEndpoints u (← getList getOp (← argN a 0))))
   | "groupMocks" => pure (jlist jgroup (groupMocks u (← getList getOp (← argN a 0))))
+  | "groupMocksRaw" => pure (jopt (jlist jgroup) (groupMocksRaw u (← getList getOp (← argN a 0))))
   | "tagScore" =>
     let s := tagScore u (← getStr (← argN a 0))
     pure (Json.arr #[Json.bool s.pascal, jnat s.words, jnat s.upper, jstr s.tag])
